@@ -37,6 +37,7 @@ EXPLANATION = (
     "literal. "
     " The Gaussian-field argument of each propagate method is identified by its position in the signature (its name differs between the classes). SIB-1: the fast propagator and its brute-force reference resolve _build_propagation_intermediates (exp_h1, mean-field shifts) to one and the same function. A scan body whose update blocks are written in a form the peeling does not recognise is noted and not judged; the recognised blocks still are. "
     " SIMUL-1: in update_greens_function of every class that defines one, a rank-one correction never combines entries read from the Green's function the method received with a column / entry read out of the partially updated array (for index pairs in the same block the first correction has already changed it). SIB-3: uhf_cpmc and ghf_cpmc are expanded into polynomials over role atoms (update constants, 1/ratio, entries g(a,b), columns col(a), shifted rows sg(a), a,b in {i,j}); every read addresses the spin block / spin-orbital of its own index pair, the GHF polynomial has no spin gate, every UHF monomial with an off-diagonal entry carries (spin_i == spin_j), and with the gate set to 1 the two polynomials coincide, for calc_overlap_ratio and for the corrections of update_greens_function. "
+    " FWD-2 (pitfall rule, contradiction between call sites): a helper parameter that mirrors a field of the calling objects (dt) is not left at the helper's default by one class while another passes self.dt. "
 )
 NOT_DECIDED = (
     "exact unbiasedness over the 2^n field configurations; the Wick ratio and the Sherman-Morrison update "
